@@ -498,6 +498,15 @@ func (t *textReader) onNull(ws bool) (Type, error) {
 
 // readNullType reads the null.{this} type symbol.
 func (t *textReader) readNullType() (Type, error) {
+	// The type name follows the dot directly: no whitespace or comment in between.
+	c, err := t.tok.peek()
+	if err != nil {
+		return NoType, err
+	}
+	if !isIdentifierStart(c) {
+		return NoType, t.tok.invalidChar(c)
+	}
+
 	if err := t.tok.Next(); err != nil {
 		return NoType, err
 	}
